@@ -5,6 +5,7 @@ CONSTANTS
   Kind <- K_N2slow
   HoldLock = FALSE
   OneShot = FALSE
+  Guarded = TRUE
   Spawned = 2
 INVARIANT Safety
 PROPERTIES EventuallyShortDone
